@@ -21,7 +21,8 @@ fn lru(rounds: usize, rng: &mut Lcg) {
         for _ in 0..12 {
             let k = rng.below(4) as u8;
             let v = rng.below(1000) as u32;
-            match rng.below(14) {
+            match rng.below(15) {
+                14 => { let c = NonZeroUsize::new(1 + rng.below(3) as usize).unwrap(); a.resize(c); b.resize(c); }
                 0 | 1 => assert_eq!(a.put(k, v), b.put(k, v)),
                 8 => assert_eq!(a.pop(&k), b.pop(&k)),
                 9 => assert_eq!(a.pop_entry(&k), b.pop_entry(&k)),
